@@ -184,11 +184,13 @@ LiveSpec == /\ Init /\ [][LiveNext]_vars
             /\ \A n \in Node : WF_vars(LInterval(n))
             /\ WF_vars(LDeliverOldest)
             /\ \A n \in Node, e \in F!Entry : WF_vars(LExpire(n, e))
-\* negative control: if only SOME orphaned fetch is guaranteed to time out, a fetch whose request was lost can stay
-\* in flight for ever and blocks every later fetch of that record version -- agreement is then never reached
+\* negative control: without the time-out of orphaned fetches (no fairness on it at all) a fetch whose request was lost stays
+\* in flight for ever and blocks every later fetch of that record version -- agreement is then never reached.
+\* (Before fix cbec58d in /repo even "SOME orphaned fetch times out" was not enough: fetched copies that changed nothing left
+\* entries in flight whose repeated expiry satisfied that fairness condition while the lost fetch never expired.)
 LiveSpecWeak == /\ Init /\ [][LiveNext]_vars
                 /\ \A n \in Node : WF_vars(LInterval(n))
-                /\ WF_vars(LDeliverOldest) /\ WF_vars(LExpireSome)
+                /\ WF_vars(LDeliverOldest)
 AllAgree == \A a \in Addr : (\A n \in Node : content[n][a] = JoinAt(content, a, Node)) \/ PadStuck(a)
 EventuallyAgree == <>[]AllAgree
 =============================================================================
